@@ -106,6 +106,10 @@ KANI_UNITS['induction'] = {
     'merge_variable_addition_into_derived_componentwise': {'tier': 'quick', 'complete': True},
     'guard_invert_is_negation_and_to_op_is_faithful': {'tier': 'quick', 'complete': True},
     'get_guard_operator_is_the_continue_condition': {'tier': 'quick', 'complete': True},
+    # std contracts that Verus units tripcount / lexer / strconst take as assume_specification: full-domain, loop-free
+    'std_i32_checked_neg_contract': {'tier': 'quick', 'complete': True},
+    'std_u8_is_ascii_whitespace_contract': {'tier': 'quick', 'complete': True},
+    'std_u8_is_ascii_alphanumeric_contract': {'tier': 'quick', 'complete': True},
   },
 }
 
@@ -169,7 +173,8 @@ PROPERTIES = {
                            'merge_ordering_same_value_no_overflow'],
                   'induction': ['merge_invariant_addition_same_value', 'merge_invariant_multiplication_same_value',
                                 'merge_constant_addition_into_derived_same_value', 'merge_constant_multiplication_into_derived_shape',
-                                'merge_variable_addition_into_derived_componentwise']},
+                                'merge_variable_addition_into_derived_componentwise',
+                                'std_i32_checked_neg_contract', 'std_u8_is_ascii_whitespace_contract']},
     'level': 'proof',
     'scope': 'kernels only: totality (no panic, termination, bump within bounds and on a char boundary) of the hand-written '
              'lexer scanners; panic-freedom of constant folding and trip-count analysis; parser / checker / printer not covered',
@@ -245,7 +250,7 @@ PROPERTIES = {
     'scope': 'kernels only: Position order / Location contains / union algebra over all u32 values; the lexer\'s tracked '
              'line/column equals the position of the consumed byte offset for whitespace, strings, line and block comments; '
              'the parser\'s `last_location` is the location of the last consumed token and looking ahead does not move it (peek / consume); '
-             'the ranges built by parse_type_parameter and parse_identifier_annot enclose their parts; the other union call sites of the parser are not covered',
+             'the ranges built by parse_type_parameter and parse_identifier_annot enclose their parts; a member access `o.m<T>` encloses its object and its type arguments (the member name when there are none) and a call encloses its callee and argument list (parse_function_call_or_field_access_with_start); the node built by each of the six binary-operator productions (|| && comparisons + - * / % ::) has the two parsed operands, the operator read, and a range enclosing both operands; `!e` and `-e` run from the operator token over the argument (parse_unary_expression); the other union call sites of the parser are not covered',
   },
   'C17': {
     'verus': ['heap'],
@@ -283,7 +288,7 @@ STANDING_ASSUMPTIONS = {
     'CBMC 6.11 / Kani 0.68; all u32 line/column values; module references range over the three public constants (the field is private to samlang-heap)',
   ],
   'tripcount': [
-    'Verus/Z3 with vstd arithmetic lemmas; i32::checked_neg contract assumed (std documentation)',
+    'Verus/Z3 with vstd arithmetic lemmas; the i32::checked_neg contract used here is discharged over all i32 by Kani harness induction::std_i32_checked_neg_contract',
     'the induction variable is compared over mathematical integers; the in-range clause makes that equal to the wrapping run',
   ],
   'algebra': ['Verus/Z3 nonlinear arithmetic; vstd specs of i32::wrapping_mul / wrapping_add'],
@@ -294,7 +299,7 @@ STANDING_ASSUMPTIONS = {
                'the closure that lowers each MIR loop variable keeps its name (R3); values are abstract integers'],
   'strconst': ['Verus/Z3; JavaScript template-literal value (ECMA-262 12.9.6, escapes \\x \\u octal and line continuation unmodelled = None), '
                'WebAssembly text string literals (spec 6.3.3) and loader.js (one UTF-16 code unit per byte) are modelled by spec functions; '
-               'UTF-8 of ASCII text = its codes (axiom); u8::is_ascii_alphanumeric by its documented definition; i.to_string() opaque (R3); '
+               'UTF-8 of ASCII text = its codes (axiom); u8::is_ascii_alphanumeric = 0-9A-Za-z (discharged over all u8 by Kani harness induction::std_u8_is_ascii_alphanumeric_contract, run under C02); i.to_string() opaque (R3); '
                'the loops around the two R14 blocks (enumerate) and the printing of offset / length are outside the blocks'],
   'checkgates': ['Verus/Z3; the tests themselves (TypingContext::is_subtype, type_system::assignability_check, is_the_same_type, '
                  'subst_nominal_type) are opaque: only "a failed test is reported" is proved; ErrorSet reduced to its error count'],
@@ -349,12 +354,15 @@ STANDING_ASSUMPTIONS = {
                'contracts proved in unit depgraph; parse / build_module_signature are uninterpreted functions of (text, module) / (module, parse); '
                'a module\'s imports depend only on its own parsed form'],
   'prodloc': ['Verus/Z3; ranges are abstract with the nesting order and the union contract of Kani unit loc (all tokens of one parser share their module); '
-              'peek / consume / parse_upper_id_with_comments / parse_optional_type_arguments are opaque'],
+              'peek / consume / parse_upper_id_with_comments / parse_optional_type_arguments / parse_parenthesized_expression_list / CommentStore::create_comment_reference are opaque; '
+              'the member-access and call nodes are R14 blocks of parse_function_call_or_field_access_with_start, the binary nodes R14 blocks of the six parse_*_with_start operator productions, the two prefix-operator nodes R14 blocks of parse_unary_expression (the surrounding loops, the reading of operator / member name and the parsing of the right operand are outside); '
+              'expr::E reduced to FieldAccess, Call, Binary, Unary and a rest with only its common part (R6), E::loc = the range in the common part; '
+              'with explicit type arguments the member NAME is enclosed only because tokens are consumed in increasing position order (not stated)'],
   'parsetok': ['Verus/Z3; the parser is reduced to the fields peek / consume touch, TokenContent to the comment variants, EndOfFile and an opaque rest (R6); '
-               'the token stream is an abstract sequence; termination of peek is not proved (exec_allows_no_decreases_clause)'],
+               'the token stream is an abstract finite sequence (next_token hands out its first element); peek terminates: each skipped comment shortens it (decreases clause, no exec_allows_no_decreases_clause left in any unit)'],
   'depgraph': [
     'vstd models of HashMap / HashSet / Vec and their iterators; obeys_key_model::<ModuleReference>()',
-    'termination of transitive_set is NOT proved (exec_allows_no_decreases_clause): partial correctness only',
+    'termination of transitive_set IS proved (decreases: modules of the finite universe not yet visited, then stack length); Set finiteness is built into this vstd',
     'R3 stub: initial.into_iter().collect_vec() returns a vector with exactly the elements of the set',
   ],
   'lexer': [
@@ -362,7 +370,7 @@ STANDING_ASSUMPTIONS = {
     'UTF-8 facts assumed: the byte after an ASCII byte is a char boundary; well-formed UTF-8 cut at a boundary is well-formed',
     'source text shorter than 2 GiB (i32::MAX bytes): columns are u32 and the escape counter is i32',
     'R3 stubs: str::starts_with on ASCII patterns = first bytes; from_utf8_lossy/trim/post_process_block_comment are total',
-    'u8::is_ascii_whitespace = {space, \\t, \\n, form feed, \\r} (std documentation)',
+    'u8::is_ascii_whitespace = {space, \\t, \\n, form feed, \\r}: discharged over all u8 by Kani harness induction::std_u8_is_ascii_whitespace_contract (run under C02 / C05)',
   ],
   'wasmops': [
     'CBMC 6.11 / Kani 0.68; std::hash::RandomState::new stubbed (Heap / SymbolTable are only carried, built empty by struct literals spliced under cfg(kani))',
